@@ -169,6 +169,9 @@ def parseTopic (s : String) : Option Eng.Topic :=
   match s.toList with
   | 't' :: r => (String.ofList r).toNat?.map fun k => { id := k, long := false }
   | 'L' :: r => (String.ofList r).toNat?.map fun k => { id := k, long := true }
+  -- `M<k>`: names of 216, 217, 220, 222, 223, 200 bytes (harness/engine/src/prog.rs): the header fits up to 216
+  | 'M' :: r => (String.ofList r).toNat?.map fun k =>
+      { id := 1000 + k, long := decide (([216, 217, 220, 222, 223, 200].getD (k % 6) 0) > 216) }
   | _ => none
 
 def parsePay (s : String) : Option Eng.Pay :=
